@@ -1634,15 +1634,15 @@ class TaskScenario(ScenarioData):
         # Fall back to allocate (which may contain IDs or resource objects)
         allocate = self.property.get("allocate", self.scenarioIdx) or []
         for res in allocate:
-            if isinstance(res, str):
-                # Look up resource by ID
-                for resource in self.project.resources:
-                    if resource.id == res:
-                        resources.append(resource)
-                        break
+            if isinstance(res, dict):
+                # Allocation with options: primary resources and their alternatives
+                candidates = list(res.get("resources", [])) + list(res.get("options", {}).get("alternative", []))
             else:
-                # Already a resource object
-                resources.append(res)
+                candidates = [res]
+            for candidate in candidates:
+                resource = self._resolve_resource(candidate)
+                if resource is not None and resource not in resources:
+                    resources.append(resource)
 
         return resources
 
